@@ -244,33 +244,37 @@ def mapM' {α β} (f : α → Except Err β) : List α → Except Err (List β)
       | .error e => .error e
       | .ok ys => .ok (y :: ys)
 
+/-- one payload through `ops.map_valid(src_, field_map, snk_, invalid)` -/
+def mapValidPayload (fieldMap : List Int) (init : Option (List Int)) (inv : Int) (p : Payload) : Except Err (List Int) :=
+  match numericOf p with
+  | .error e => .error e
+  | .ok xs => MapValid.mapValid xs fieldMap init inv 0
+
 /-- `_map_fields(field_map, field_sources, field_sinks, invalid)` -/
 def mapFields (fieldMap : List Int) (srcs : List Payload) (sinks : Sinks) (inv : Int) : Except Err MergeOut :=
   match sinks with
   | .none =>
-    match mapM' (fun p => match numericOf p with
-        | .error e => .error e
-        | .ok xs => MapValid.mapValid xs fieldMap none inv 0) srcs with
+    match mapM' (mapValidPayload fieldMap none inv) srcs with
     | .error e => .error e
     | .ok outs => .ok ⟨some outs, [], none⟩
   | .fields =>
-    match mapM' (fun p => match numericOf p with
-        | .error e => .error e
-        | .ok xs => MapValid.mapValid xs fieldMap none inv 0) srcs with
+    match mapM' (mapValidPayload fieldMap none inv) srcs with
     | .error e => .error e
     | .ok outs => .ok ⟨none, outs, none⟩
   | .arrays init =>
-    match mapM' (fun (p : Payload × List Int) => match numericOf p.1 with
-        | .error e => .error e
-        | .ok xs => MapValid.mapValid xs fieldMap (some p.2) inv 0) (srcs.zip init) with
+    match mapM' (fun (p : Payload × List Int) => mapValidPayload fieldMap (some p.2) inv p.1) (srcs.zip init) with
     | .error e => .error e
     | .ok outs => .ok ⟨none, outs, none⟩
 
+/-- one payload through `ops.ordered_map_valid_stream_old(src_, map_, snk_, invalid)` -/
+def streamPayload (fieldMap : List Int) (inv : Int) (cs : Nat) (p : Payload) : Except Err (List Int) :=
+  match numericOf p with
+  | .error e => .error e
+  | .ok xs => mapValidStreamOld xs fieldMap inv cs 0
+
 /-- `_streaming_map_fields(field_map, field_sources, field_sinks, invalid)` with the session's chunk size `cs` -/
 def streamingMapFields (fieldMap : List Int) (srcs : List Payload) (inv : Int) (cs : Nat) : Except Err (List (List Int)) :=
-  mapM' (fun p => match numericOf p with
-    | .error e => .error e
-    | .ok xs => mapValidStreamOld xs fieldMap inv cs 0) srcs
+  mapM' (streamPayload fieldMap inv cs) srcs
 
 def Sinks.count : Sinks → Option Nat
   | .none => Option.none
